@@ -236,6 +236,84 @@ func main() {
 				}
 			}
 			fmt.Fprintf(out, "pure differing=[%s]\n", strings.Join(uniq, " "))
+		case "CPURE": // CPURE goroutines reps path,path,... : ReadFile / Validate / Format of several texts from many goroutines at once, each against the sequential result
+			ng, _ := strconv.Atoi(t[1])
+			reps, _ := strconv.Atoi(t[2])
+			paths := strings.Split(t[3], ",")
+			type ref struct {
+				data []byte
+				f    bebop.File
+				es   string
+				vs   string
+				fm   []byte
+			}
+			refs := make([]ref, len(paths))
+			okRead := true
+			for i, p := range paths {
+				data, err := os.ReadFile(p)
+				if err != nil {
+					okRead = false
+					break
+				}
+				f, _, rerr := bebop.ReadFile(bytes.NewReader(data))
+				vs := ""
+				if rerr == nil {
+					vs = fmt.Sprint(f.Validate())
+				}
+				var fb bytes.Buffer
+				if ferr := bebop.Format(bytes.NewReader(data), &fb); ferr != nil {
+					fb.Reset()
+				}
+				refs[i] = ref{data, f, fmt.Sprint(rerr), vs, append([]byte{}, fb.Bytes()...)}
+			}
+			if !okRead {
+				fmt.Fprintln(out, "err read")
+				break
+			}
+			var mu sync.Mutex
+			diffs := map[string]int{}
+			var wg sync.WaitGroup
+			for w := 0; w < ng; w++ {
+				wg.Add(1)
+				go func(w int) {
+					defer wg.Done()
+					for r := 0; r < reps; r++ {
+						for j := range refs {
+							x := &refs[(j+w)%len(refs)]
+							f, _, rerr := bebop.ReadFile(bytes.NewReader(x.data))
+							vs := ""
+							if rerr == nil {
+								vs = fmt.Sprint(f.Validate())
+							}
+							var fb bytes.Buffer
+							if ferr := bebop.Format(bytes.NewReader(x.data), &fb); ferr != nil {
+								fb.Reset()
+							}
+							out2 := append([]byte{}, fb.Bytes()...)
+							bad := ""
+							if fmt.Sprint(rerr) != x.es || !reflect.DeepEqual(f, x.f) {
+								bad = "readfile"
+							} else if vs != x.vs {
+								bad = "validate"
+							} else if !bytes.Equal(out2, x.fm) {
+								bad = "format-bytes"
+							}
+							if bad != "" {
+								mu.Lock()
+								diffs[bad]++
+								mu.Unlock()
+							}
+						}
+					}
+				}(w)
+			}
+			wg.Wait()
+			keys := []string{}
+			for k := range diffs {
+				keys = append(keys, fmt.Sprintf("%s:%d", k, diffs[k]))
+			}
+			sort.Strings(keys)
+			fmt.Fprintf(out, "cpure differing=[%s]\n", strings.Join(keys, " "))
 		default:
 			fmt.Fprintln(out, "?")
 		}
